@@ -75,6 +75,7 @@ class WildGen:
             multiline_defaults=True,   # default values containing a line break (the line-oriented MATLAB extractors of
                                        # the harness cannot read routines that contain them: switched off there)
             special_names=0.0,         # python keywords / ipython names / print / serialize as member names
+            qualified_param_name_deep=False,   # D49: ns::T inside template arguments, T a parameter in scope
             reopen_ns=0.0,             # probability that a namespace is written as two blocks (D6, repaired)
         )
         f.update(features)
@@ -152,6 +153,12 @@ class WildGen:
             p = r.choice(self.scope_params)
             nm = r.choice([p + 'x', 'x' + p, p + p, p + '_', p + '1', 'My' + p])
             ns = r.choice([(), (), ('ns' + p,), (p + 'ns', 'q')])
+            if nm in self.scope_params:
+                # the near miss happens to be another parameter in scope (T, TT): unqualified it *is* that
+                # parameter; qualified (nsT::TT) it is a foreign name, which the tool keeps at depth 0 (D48,
+                # repaired) but still rewrites inside template arguments (D49, pinned by a golden file)
+                if not ns or (depth > 0 and not f['qualified_param_name_deep']):
+                    return None
             return S.T(nm, ns, (), const, marker)
         return None
 
@@ -275,7 +282,7 @@ class WildGen:
         self.scope_params = [p.name for p in (tmpl or ())]
         self.scoped_ok = self._scoped_ok_of(tmpl)
         class_scoped_ok = dict(self.scoped_ok)
-        self.in_class = self.f['this_in_base']   # D38: `This` inside a templated base is not replaced
+        self.in_class = self.f['this_in_base']   # D38 (repaired): `This` inside a templated base
         if self.f['bases'] and r.random() < 0.35:
             if r.random() < 0.4 and self.f['templated_types']:
                 ns, bn = self.typename()
